@@ -198,3 +198,30 @@ if __name__ == '__main__':
     import sys
     E, res = verify(sys.argv[2:], [sys.argv[1]] if sys.argv[1] != '-' else None, keep_smt=True)
     print(summarize(res))
+
+
+def verify_group(quals, sidecar_names, timeout_ms=30000, second_opinion=False, repo=None):
+    """a second group of functions verified under its own sidecar set (contracts that cannot be loaded together with the
+    property's main set, e.g. a different ghost view of the same global); returns the obligations as custom obligations"""
+    E, results = verify(quals, sidecar_names, repo=repo or os.environ.get('HEPH_REPO'), timeout_ms=timeout_ms,
+                        second_opinion=second_opinion)
+    out = []
+    for fr in results:
+        if fr.error:
+            out.append(dict(name='%s/no-longer-verifiable' % fr.qual, function=fr.qual, lineno=0, kind='proof',
+                            status='failed', secs=fr.secs, backend='pyvc',
+                            reason='cannot analyse (%s): %s' % (fr.error_kind, fr.error.strip().split('\n')[-1][:300])))
+            continue
+        nproof = 0
+        for o in fr.obligations:
+            if o['kind'] != 'proof':
+                if o['kind'] == 'cover' and o['status'] not in ('ok', 'proved'):
+                    out.append(dict(o, function=fr.qual, kind='proof', status='failed',
+                                    reason='vacuity: a cover was refuted (%s)' % o.get('reason', '')))
+                continue
+            nproof += 1
+            out.append(dict(o, function=fr.qual, abstracted=len(fr.abstracted)))
+        if nproof == 0:
+            out.append(dict(name='%s/no-obligation-generated' % fr.qual, function=fr.qual, lineno=0, kind='proof',
+                            status='failed', secs=0, backend='pyvc', reason='vacuity: no obligation was generated'))
+    return out
